@@ -1039,6 +1039,11 @@ pub fn strip_for_sync(g: &mut G) {
                 let inner = std::mem::replace(&mut **b, G::Empty);
                 *g = inner;
             }
+            // with_state(..) is not built by the sync builder (see build.rs: with_state_no)
+            G::Un(3, _, b) => {
+                let inner = std::mem::replace(&mut **b, G::Empty);
+                *g = inner;
+            }
             _ => break,
         }
     }
